@@ -25,6 +25,8 @@ fn id_tables() -> Vec<IdTable> {
         IdTable { name: "malformed-line", lines: vec![(0, "BOS/EOS,*"), (1, "N,x")], extra: Some("two") },
         IdTable { name: "unordered", lines: vec![(2, "V,*"), (0, "BOS/EOS,*"), (1, "N,x")], extra: None },
         IdTable { name: "star-feature", lines: vec![(0, "BOS/EOS,*"), (1, "*,x"), (2, "x,N")], extra: None },
+        IdTable { name: "slashes-a", lines: vec![(0, "BOS/EOS,*"), (1, "a,x"), (2, "a/b,x"), (3, "N,b/c")], extra: None },
+        IdTable { name: "slashes-b", lines: vec![(0, "BOS/EOS,*"), (1, "b/c,y"), (2, "c,y"), (3, "V,c")], extra: None },
     ]
 }
 
@@ -63,10 +65,12 @@ impl IdTable {
     }
 }
 
-const TEMPLATES: [(&str, &str); 3] = [("B0:%L[0]", "%R[0]"), ("%L[0]", "%R[1]"), ("B1:%L[0],%L?[1]", "%R?[1]")];
+const TEMPLATES: [(&str, &str); 4] = [("B0:%L[0]", "%R[0]"), ("%L[0]", "%R[1]"), ("B1:%L[0],%L?[1]", "%R?[1]"), ("%L[0]", "%R[0]")];
 
 /// model.def line menu: (weight text, feature text)
-const MODEL_LINES: [(&str, &str); 9] = [
+const MODEL_LINES: [(&str, &str); 11] = [
+    ("1.0", "a/b/c"),       // splits as (a, b/c) and as (a/b, c)
+    ("-0.5", "B0:a/b/c"),
     ("0.5", "B0:N/V"),
     ("-1.25", "B0:V/N"),
     ("0.0001", "B0:N/N"),   // rounds to zero
@@ -81,14 +85,14 @@ const MODEL_LINES: [(&str, &str); 9] = [
 pub fn run(tier: Tier) -> i32 {
     let mut rep = Report::new("C20", tier);
     let tables = id_tables();
-    let tsets: Vec<Vec<usize>> = vec![vec![0], vec![1], vec![2], vec![0, 1], vec![0, 2], vec![1, 2], vec![0, 1, 2]];
+    let tsets: Vec<Vec<usize>> = vec![vec![0], vec![1], vec![2], vec![0, 1], vec![0, 2], vec![1, 2], vec![0, 1, 2], vec![3], vec![0, 3]];
     let factors = [100.0f64, 700.0];
     let nmask = 1usize << MODEL_LINES.len();
     let mut tasks = vec![];
     for (ri, _) in tables.iter().enumerate() {
         for (li, _) in tables.iter().enumerate() {
             // quick: right and left tables coupled unless one of them is plain
-            if tier == Tier::Quick && ri != li && ri > 1 && li > 1 {
+            if tier == Tier::Quick && ri != li && ri > 1 && li > 1 && !(tables[ri].name == "slashes-a" && tables[li].name == "slashes-b") {
                 continue;
             }
             for ts in 0..tsets.len() {
@@ -104,7 +108,7 @@ pub fn run(tier: Tier) -> i32 {
         for &t in tset {
             fdef.push_str(&format!("BIGRAM {}/{}\n", TEMPLATES[t].0, TEMPLATES[t].1));
         }
-        let masks: Vec<usize> = if tier == Tier::Thorough || (ri <= 1 && li <= 1) { (0..nmask).collect() } else { vec![0, nmask - 1, 0b101010101, 0b010101010, 0b000100011] };
+        let masks: Vec<usize> = if tier == Tier::Thorough || (ri <= 1 && li <= 1) { (0..nmask).collect() } else { vec![0, nmask - 1, 0b10101010101, 0b01010101010, 0b00010001111, 0b11, 0b1, 0b10] };
         for mask in masks {
             for factor in factors {
                 st.states += 1;
@@ -219,7 +223,7 @@ pub fn run(tier: Tier) -> i32 {
             st.sample(json!({"feature.def": fdef, "right-id.def": rt.render(), "left-id.def": lt.render()}));
         }
     });
-    rep.rule = "state = (bigram template set from 3 templates incl. optional references, right-id and left-id tables from an 8-table menu (plain, 4 ids, without id 0, id 0 not BOS/EOS, gap, malformed line, unordered, '*' feature), subset of a 9-line model.def menu (positive, negative, rounds to zero, unmatched, unigram line, line with a third '/' part, bare-template lines), cost factor 100/700); accepted conversions are compiled with a probe lexicon and every non-zero id pair's connection cost is compared with the sum over applicable templates of -trunc(weight x factor) of the line whose text is left expansion '/' right expansion; malformed tables must give Err; distinct = distinct (tables, templates, lines, outcome)".into();
+    rep.rule = "state = (bigram template set from 3 templates incl. optional references, right-id and left-id tables from a 10-table menu (incl. features containing a slash) (plain, 4 ids, without id 0, id 0 not BOS/EOS, gap, malformed line, unordered, '*' feature), subset of an 11-line model.def menu (positive, negative, rounds to zero, unmatched, unigram line, line with a third '/' part, bare-template lines), cost factor 100/700); accepted conversions are compiled with a probe lexicon and every non-zero id pair's connection cost is compared with the sum over applicable templates of -trunc(weight x factor) of the line whose text is left expansion '/' right expansion; malformed tables must give Err; distinct = distinct (tables, templates, lines, outcome)".into();
     rep.bounds = json!({"id_tables": tables.len(), "template_sets": tsets.len(), "model_line_subsets": nmask});
     rep.finish(st, &["malformed_id_tables", "conversions_accepted", "id_pairs_with_nonzero_cost"])
 }
